@@ -156,17 +156,13 @@ Print Assumptions C17_chunks.
 Example C17_chunks_ex : chunks (mkView 2 7 9) 3 = Ok [mkView 2 3 3; mkView 5 3 3; mkView 8 1 1].
 Proof. reflexivity. Qed.
 
-(* Where the strict reading "every chunk has cap = len" fails: whenever the early return is taken
-   (n = 0 or n >= len) the chunk is vs with whatever capacity vs has. *)
+(* Where the strict reading "every chunk has cap = len" fails: on the early return the chunk is vs
+   with whatever capacity vs has (n = 0 or n > len here; the pinned code does the same for n = len). *)
 Theorem C17_chunks_single_keeps_capacity : forall (v : view) (n : Z),
-  0 <= n -> n = 0 \/ vlen v <= n -> chunks v n = Ok [v].
-Proof.
-  intros v n Hn H. apply chunks_single_keeps_capacity; [exact Hn|].
-  unfold Gen.SliceIdx.ch_single. destruct H as [->|H]; [reflexivity|].
-  apply orb_true_iff. right. rewrite Z.geb_leb. apply Z.leb_le. exact H.
-Qed.
+  0 <= n -> n = 0 \/ vlen v < n -> chunks v n = Ok [v].
+Proof. exact chunks_single_keeps_capacity. Qed.
 Print Assumptions C17_chunks_single_keeps_capacity.
-Example C17_chunks_single_keeps_capacity_ex : chunks (mkView 2 3 6) 3 = Ok [mkView 2 3 6] /\ ~ clipped (mkView 2 3 6).
+Example C17_chunks_single_keeps_capacity_ex : chunks (mkView 2 3 6) 4 = Ok [mkView 2 3 6] /\ ~ clipped (mkView 2 3 6).
 Proof. split; [reflexivity | unfold clipped; cbn; discriminate]. Qed.
 
 Theorem C17_chunks_panics : forall (v : view) (n : Z), n < 0 -> chunks v n = Panic PDocMax.
